@@ -70,6 +70,9 @@ def tasks(tier, seed):
         comp = rnd.choice(["superadditive", "superadditive_cached", "superadditive_cached"] + (["sam_apx_1"] if tier == "thorough" else []))
         gap = rnd.choice(["exploitability", "l1_norm", "linf_norm"]) if comp != "sam_apx_1" else "l1_norm"
         add(4, K, a, comp, gap, rnd.choice(["none", "sym"]), rnd.choice(["direct", "model"]))
+        if len(out) % 6 == 0:
+            out[-1]["episode2"] = True
+            out[-1]["key"] += "/episode2"
     # one configuration with additional initially-known coalitions
     add(4, [3], 12, "superadditive_cached", "exploitability", "none", "direct", extra_init=[5, 10])
     return out
@@ -166,6 +169,30 @@ def scenario(pk, params, inp):
                     "grand": env.incomplete_game.get_value(C(2 ** n - 1)),
                     "info_game_grand": info0["game"].get_value(C(2 ** n - 1)),
                     "mask": [bool(x) for x in env.action_masks()]}
+    if n > 3 and not params.get("episode2"):
+        return out
+    # second episode on the SAME environment object: rewards must come from the NEW hidden game
+    hidden2 = _draw(inp, counter["k"], n)
+    ep2 = {"reward0": env.reward}
+    f0 = pk.game.IncompleteCooperativeGame(n, pk.bounds.BOUNDS[params["computer"]])
+    k0 = sorted(set(F.minimal(n)) | set(params["init"]))
+    f0.set_known_values([hidden2[S] for S in k0], [C(S) for S in k0])
+    f0.compute_bounds()
+    ep2["fresh0"] = gapf(f0)
+    seq2 = list(params["K"]) + [params["a"]]
+    last = None
+    for S in seq2:
+        last = env.step(ex.index(S))
+    ep2["reward_after"] = last[1]
+    ep2["obs_after"] = list(last[0])
+    f1 = pk.game.IncompleteCooperativeGame(n, pk.bounds.BOUNDS[params["computer"]])
+    k1 = sorted(set(k0) | set(seq2))
+    f1.set_known_values([hidden2[S] for S in k1], [C(S) for S in k1])
+    f1.compute_bounds()
+    ep2["fresh_after"] = gapf(f1)
+    ep2["table_after"] = [[bool(env.incomplete_game.is_value_known(C(S))), env.incomplete_game.get_lower_bound(C(S)),
+                           env.incomplete_game.get_upper_bound(C(S))] for S in range(2 ** n)]
+    out["episode2"] = ep2
     return out
 
 
@@ -240,6 +267,15 @@ def claims(params, inp, out, lg):
     cl.append(("reset-values-from-new-game", lg.And(lg.eq(r["grand"], v3[2 ** n - 1]), lg.eq(r["info_game_grand"], v3[2 ** n - 1]))))
     cl.append(("reset-observation-zero", lg.And([lg.eq(x, zero) for x in r["obs"]])))
     cl.append(("reset-mask-all-open", r["mask"] == [True] * len(ex_ref)))
+    if "episode2" not in out:
+        return cl
+    e2 = out["episode2"]
+    cl.append(("second-episode:reward-at-reset-is-of-the-new-game", lg.eq(e2["reward0"], zero - e2["fresh0"])))
+    cl.append(("second-episode:reward-after-same-actions-is-of-the-new-game", lg.eq(e2["reward_after"], zero - e2["fresh_after"])))
+    for S in range(2 ** n):
+        if S in known:
+            cl.append((f"second-episode:known-carry-new-hidden-values:S={S}", lg.And(e2["table_after"][S][0] is True, lg.eq(e2["table_after"][S][1], v3[S]),
+                                                                                  lg.eq(e2["table_after"][S][2], v3[S]))))
     return cl
 
 
